@@ -1,9 +1,9 @@
 (* C23 -- String and bracket-string literals read with Python's escape semantics.
-   Statements only; proofs are in Lit/StringsProofs.v, Lit/StringsSim.v, Lit/StringsMain.v, Lit/BracketProofs.v.
+   Statements only; proofs are in Lit/StringsProofs.v, Lit/StringsSim.v, Lit/StringsMain.v, Lit/StringsBracket.v.
    U is the interpreter's table for \N{...}; lookup_bad U says a name holding a backslash or a
    character >= U+0100 is unknown (validated by props/c23.py). *)
 From HyV Require Import Base.Text Gen.LitTables Lit.Strings Lit.StringsSpec Lit.StringsProofs Lit.StringsSim
-  Lit.StringsMain Lit.BracketProofs.
+  Lit.StringsMain Lit.StringsBracket.
 
 (* For each of the prefixes '', r, b, br, rb, every body of valid code points that the next quote closes,
    and every following text: the reader yields Python's value of the literal (body newline-translated)
